@@ -338,39 +338,48 @@ def extends(t, conds=()):
 
 
 def rule_int_vars(ctx):
+    """int_variables decided on its recorded effects: which variables are added to the result, in which loop, under which facts (match vs
+    if-let, guards, helpers and iterator style do not matter)"""
+    from .. import leaves
     fx = ctx.facts
-    v, b = ev(fx, "int_variables", [P("$r")])
-    ex = extends(v)
-    TERM = ("each", ("call", "Rule::terms", (P("$r"),)))
-    CMP = ("proj", ("each", ("place", "$r.body.formulas")), (("AtomicFormula::Comparison", "0"),))
+    b = body_of(fx, "int_variables", NT) if False else fx.fn("natural::int_variables")
+    ev_ = sym.Eval(fx, inline_depth=0)
+    ev_.effect_calls = {"Extend::extend", "IndexSet::extend", "IndexSet::insert", "IndexSet::append", "Vec::push", "Vec::extend"}
+    ev_.function(b, [("param", "$r")])
+    R = ("param", "$r")
+    TERMS = ("call", "Rule::terms", (R,))
+    TERM = ("each", TERMS)
+    FORMS = ("fieldof", ("fieldof", R, "body"), "formulas")
+    CMP = ("proj", ("each", FORMS), (("AtomicFormula::Comparison", "0"),))
 
     def names_of(src):
-        return ("call", "Iterator::map", (("call", "Term::variables", (src,)), ("closure", ("v",), ("place", "v.0"))))
-    got = set()
-    for conds, meth, args in ex:
-        cs = tuple((c[0] if c[0][0] != "if" else ("if", c[0][1]), c[1]) for c in conds)
-        # drop the (always present) outer conditions of later loops that do not concern this extend
-        got.add((simplify_conds(conds), meth, args))
-    want = {
-        ((("match", TERM), "Term::UnaryOperation{}"),): names_of(("proj", TERM, (("Term::UnaryOperation", "arg"),))),
-    }
-    found = {}
-    for conds, meth, args in ex:
-        src = args[0]
-        found.setdefault(src, set()).add(relevant(conds, src))
+        return ("call", "Iterator::map", (("call", "Term::variables", (src,)), ("closure", ("v",), ("fieldof", ("param", "v"), "0"))))
+    got = []
+    for conds, loops, eff in ev_.out:
+        if eff[0] != "emit" or eff[1] not in ev_.effect_calls:
+            continue
+        nest, mp, flt = leaves.loop_nest_filtered(loops)
+        cv = lambda x: leaves.norm(leaves.strip_acc(leaves.replace(x, mp)))
+        ts = []
+        for c, pol in list(conds) + flt:
+            r = leaves.cond_tests(cv(c), pol)
+            ts += r or [("dead",)]
+        got.append((tuple(cv(n) for n in nest), frozenset(t for t in ts if t[0] != "survived"), cv(eff[2][1]) if len(eff[2]) > 1 else None))
+    eq_rel = ("cond", ("bin", "Eq") + tuple(sorted((("ctor", "Relation::Equal", ()), ("fieldof", CMP, "relation")), key=repr)), True)
+    second = ("cond", ("call", "natural::is_term_regular_of_second_kind", (("fieldof", CMP, "rhs"),)), True)
     ref = {
-        names_of(("proj", TERM, (("Term::UnaryOperation", "arg"),))): {("arm", "Term::UnaryOperation{}")},
-        names_of(("proj", TERM, (("Term::BinaryOperation", "lhs"),))): {("arm", "Term::BinaryOperation{}")},
-        names_of(("proj", TERM, (("Term::BinaryOperation", "rhs"),))): {("arm", "Term::BinaryOperation{}")},
-        names_of(("fieldof", CMP, "lhs")): {("equal-interval",)},
+        "unary-operand": ((TERMS,), frozenset([("is", TERM, "Term::UnaryOperation")]), names_of(("proj", TERM, (("Term::UnaryOperation", "arg"),)))),
+        "binary-left-operand": ((TERMS,), frozenset([("is", TERM, "Term::BinaryOperation")]), names_of(("proj", TERM, (("Term::BinaryOperation", "lhs"),)))),
+        "binary-right-operand": ((TERMS,), frozenset([("is", TERM, "Term::BinaryOperation")]), names_of(("proj", TERM, (("Term::BinaryOperation", "rhs"),)))),
+        "left-side-of-equal-interval": ((FORMS,), frozenset([("is", ("each", FORMS), "AtomicFormula::Comparison"), eq_rel, second]), names_of(("fieldof", CMP, "lhs"))),
     }
-    labels = ["unary-operand", "binary-left-operand", "binary-right-operand", "left-side-of-equal-interval"]
-    for (src, cond), label in zip(ref.items(), labels):
-        ok = found.get(src) == cond
-        ctx.add("INTVARS", "source:%s" % label, ok, ctx.site(b),
-                "int_variables adds the variables of %s under the condition %s (found: %s)" % (rn(src[2][0][2][0]), sorted(cond), sorted(found.get(src, ["never"]), key=repr)))
-    extra = set(found) - set(ref)
-    ctx.add("INTVARS", "no-other-source", not extra, ctx.site(b), "no other variables are made integer-sorted: %s" % [rn(x) for x in extra])
+    for label, want in ref.items():
+        hits = [g for g in got if g[2] == want[2]]
+        ctx.add("INTVARS", "source:%s" % label, hits == [want], ctx.site(b),
+                "int_variables adds the variables of %s for every element of %s under exactly the facts %s (found: %s)" % (
+                    rn(want[2][2][0][2][0]), rn(want[0][0]), sorted(map(str, want[1])), [sorted(map(str, h[1])) for h in hits] or "never"))
+    extra = [g for g in got if g not in ref.values()]
+    ctx.add("INTVARS", "no-other-source", not extra and len(got) == len(ref), ctx.site(b), "no other variables are made integer-sorted: %s" % [rn(x[2]) for x in extra])
     # Rule::terms covers every top-level term of the rule
     reach = collect.reachable_types(fx, {A + "Term"})
     collect.check_method(ctx, "COLLECT", fx, A + "Body", "terms", reach)
@@ -439,6 +448,10 @@ def P2F(x, iv=P("$iv")):
     return ("call", "natural::p2f", (x, iv))
 
 
+def same_tpl(pattern, actual):
+    return match(pattern, actual) is not None
+
+
 def rule_templates(ctx):
     fx = ctx.facts
     IV = P("$iv")
@@ -450,26 +463,66 @@ def rule_templates(ctx):
     m_ = {a[0].split("::")[-1]: (a[-1][1].split("::")[-1] if a[-1][0] == "ctor" else "?") for a in fv[2]} if fv[0] == "match" else {}
     ctx.add("TAB-MAP", "Relation", m_ == {r: r for r in fx.variants(A + "Relation")} and len(m_) == 6, ctx.site(fb[0]), "asp::Relation -> fol::Relation keeps every relation: %s" % m_)
 
-    # comparison
-    v, b = ev(fx, "natural_comparison", [C("Comparison", relation=P("$rel"), lhs=P("$l"), rhs=P("$r")), IV])
-    val, tries, nones = opt_value(v)
-    REL = ("call", "From::from[Relation<-Relation]", (P("$rel"),))
-    COND = ("bin", "And", ("bin", "Eq", REL, ("ctor", "Relation::Equal", ())), ("call", "natural::is_term_regular_of_second_kind", (P("$r"),)))
-    ok_shape = val[0] == "if" and val[1] == COND
-    ctx.add("TPL", "comparison:case-split", ok_shape, ctx.site(b), "the interval case is taken iff the relation is = and the right side is regular of the second kind")
-    if ok_shape:
-        inner = val[2]
-        if inner[0] == "if" and inner[1][0] == "iflet" and inner[1][1].startswith("Term::BinaryOperation"):
-            inner = inner[2]
-        nf = ftpl.NF()
-        f1 = nf.formula(inner)
-        L, T2, T3 = (("term", nf.gen(P2F(x))) for x in (P("$l"), ("proj", P("$r"), (("Term::BinaryOperation", "lhs"),)), ("proj", P("$r"), (("Term::BinaryOperation", "rhs"),))))
-        check_tpl(ctx, "TPL", "comparison:interval", AND(LE(T2, L), LE(L, T3)), f1, ctx.site(b), "t1 = t2..t3 becomes  t2 <= t1 <= t3")
-        f2 = nf.formula(val[3])
-        Rr = ("term", nf.gen(P2F(P("$r"))))
-        check_tpl(ctx, "TPL", "comparison:plain", ("cmp", nf.gen(REL), L, Rr), f2, ctx.site(b), "t1 rel t2 keeps its relation and both translated sides")
-        want_tries = {P2F(P("$l")), P2F(P("$r")), P2F(("proj", P("$r"), (("Term::BinaryOperation", "lhs"),))), P2F(("proj", P("$r"), (("Term::BinaryOperation", "rhs"),)))}
-        ctx.add("FLOW-ERR", "comparison:propagation", tries == want_tries, ctx.site(b), "all four p2f results are propagated with `?`: %s" % sorted(rn(x) for x in tries))
+    # comparison: decided per (relation, shape of the right side) on concrete nodes
+    from .. import leaves
+    b = body_of(fx, "natural_comparison", NT)
+    BIN = C("Term::BinaryOperation", op=P("$op"), lhs=P("$a"), rhs=P("$b"))
+    OTHER = C("Term::Variable", **{"0": P("$v")})
+    split_ok, interval_ok, plain_ok, tries_all = True, True, True, set()
+    detail = []
+    n_int = n_plain = 0
+    for rel in fx.variants(A + "Relation"):
+        for rk, rhs in (("binary", BIN), ("other", OTHER)):
+            e_ = sym.Eval(fx, inline_depth=1, inline=lambda dp: False)
+            v = reduce(e_.function(b, [C("Comparison", relation=C("Relation::" + rel), lhs=P("$l"), rhs=rhs), IV]))
+            second = ("cond", ("call", "natural::is_term_regular_of_second_kind", (rhs,)), True)
+            got = {}
+            for ts, x in leaves.leaves(leaves.lift(v)):
+                ts = tuple(t for t in ts if not (t[0] == "is" and t[2] in ("Option::Some",)))
+                if x not in got.setdefault(ts, []):
+                    got[ts].append(x)
+            for xs in got.values():
+                for x in xs:
+                    tries_all |= {t[1] for t in sym.subterms(x) if isinstance(t, tuple) and t[:1] == ("try",)}
+            nf = ftpl.NF()
+            L = ("term", nf.gen(P2F(P("$l"))))
+
+            def formula_of(x):
+                val, _, _ = opt_value(x)
+                return nf.formula(val)
+            if rel == "Equal":
+                yes, no = got.get((second,)), got.get((("cond", second[1], False),))
+                if not (yes and no and len(yes) == 1 and len(no) == 1 and len(got) == 2):
+                    split_ok = False
+                    detail.append((rel, rk, [list(map(str, k_)) for k_ in got]))
+                    continue
+                if rk == "binary":
+                    T2, T3 = ("term", nf.gen(P2F(P("$a")))), ("term", nf.gen(P2F(P("$b"))))
+                    n_int += 1
+                    if not same_tpl(AND(LE(T2, L), LE(L, T3)), formula_of(yes[0])):
+                        interval_ok = False
+                        detail.append((rel, rk, "interval", render(formula_of(yes[0]))))
+                else:
+                    if yes[0] != ("ctor", "Option::None", ()):
+                        interval_ok = False
+                        detail.append((rel, rk, "a non-interval right side of the second kind must refuse", sym.pretty(yes[0])[:80]))
+                plain = no[0]
+            else:
+                if len(got) != 1 or () not in got or len(got[()]) != 1:
+                    split_ok = False
+                    detail.append((rel, rk, [list(map(str, k_)) for k_ in got]))
+                    continue
+                plain = got[()][0]
+            n_plain += 1
+            want_plain = C("Formula::AtomicFormula", **{"0": C("AtomicFormula::Comparison", **{"0": C("Comparison", term=P2F(P("$l")), guards=("list", (C("Guard", relation=C("Relation::" + rel), term=P2F(rhs)),)))})})
+            if formula_of(plain) != nf.formula(want_plain):
+                plain_ok = False
+                detail.append((rel, rk, "plain", render(formula_of(plain)), render(nf.formula(want_plain))))
+    ctx.add("TPL", "comparison:case-split", split_ok, ctx.site(b), "the interval case is taken iff the relation is = and the right side is regular of the second kind", construct=detail or None)
+    ctx.add("TPL", "comparison:interval", split_ok and interval_ok and n_int >= 1, ctx.site(b), "t1 = t2..t3 becomes  t2 <= t1 <= t3 (a second-kind right side that is not a binary operation refuses)", construct=detail or None)
+    ctx.add("TPL", "comparison:plain", split_ok and plain_ok and n_plain >= 6, ctx.site(b), "t1 rel t2 keeps its relation and both translated sides (%d cases)" % n_plain, construct=detail or None)
+    want_tries = {P2F(P("$l")), P2F(BIN), P2F(OTHER), P2F(P("$a")), P2F(P("$b"))}
+    ctx.add("FLOW-ERR", "comparison:propagation", tries_all == want_tries, ctx.site(b), "every p2f result is propagated with `?`: %s" % sorted(rn(x) for x in tries_all))
     # body atom / literal / body
     v, b = ev(fx, "natural_b_atom", [C("Atom", predicate_symbol=P("$p"), terms=P("$ts")), IV])
     val, tries, nones = opt_value(v)
